@@ -1,4 +1,6 @@
 // Set an environment variable for the test dir.
 fn main() {
     println!("cargo:rustc-env=SUIRON_TEST_DIR=./tests");
+    // Verification hooks are compiled only with RUSTFLAGS="--cfg suiron_verif".
+    println!("cargo:rustc-check-cfg=cfg(suiron_verif)");
 }
